@@ -5,4 +5,22 @@ CHECKS = {
          "text": "Each rewrite rule of the optimizer gets a denotation-preservation lemma generated from the AST of its real __call__ method and discharged for every rank/shape; the side conditions of the graph induction (strict-predecessor arguments, purity) are rule-checked; the induction itself and termination are not mechanised, the driver and SkipCast are covered by bounded runs only - hence 'other', not 'proof'.",
          "note": P_NOTE + "numpy index-level laws are axioms; termination only observed."},
 }
+B_NOTE = "Whole-pipeline value claims are evaluated at run time on a bounded corpus (labelled bounded, never counted as proved); only the listed integer/sequence kernels are unbounded. Only numpy backends are importable. "
+CHECKS.update({
+ "C01": {"level": "other", "technique": "contracts on the lowering chain: diagonal axis bookkeeping proved for all ranks (VCs from the real AST, z3); top-level postcondition = loop-notation meaning evaluated on a bounded corpus x 3 numpy backends",
+         "text": "The repeated-axis (diagonal) bookkeeping of the real classical_from_numpy.diagonal is proved for every rank and multiplicity from its AST; the property-level postcondition (result = loop-notation meaning) is a run-time contract evaluated over a grammar-directed corpus against an independent loop interpreter - bounded, so 'other'.",
+         "note": P_NOTE + B_NOTE},
+ "C09": {"level": "other", "technique": "frame condition by syntactic rule over the real AST (producers of in-place IR nodes, target position, functional allow-list) + bounded byte snapshots over layouts",
+         "text": "assigns <= {first tensor of *_at} is decided by a rule over every producer of in-place IR nodes and every numpy attribute the numpy adapter uses; the run-time frame contract (bytes/strides/flags of all arguments and of the base arrays of views) is evaluated on a bounded corpus over five layouts.",
+         "note": "Trusted: numpy functions on the functional allow-list do not write their inputs; the rule's blind spots (in-place writes through aliases created by helper functions outside the adapter) are covered only by the bounded part. " + B_NOTE},
+ "C10": {"level": "other", "technique": "ownership contracts decided by syntactic rules (lockset on registry.state, immutable snapshots, thread-local stacks, shared-state inventory); no schedule exploration",
+         "text": "Only the lock/ownership obligations the mechanism relies on are decided (every store to registry.state is an atomic read-modify-write under use_lock; snapshots immutable; tracing stacks thread-local; no other call-time shared writes). The quantifier over interleavings is explicitly NOT claimed: this family does not explore schedules.",
+         "note": "Scope limited (DESIGN §3 C10, §5). Trusted: threading.Lock/RLock, functools.cache thread-safety, CPython memory model. Known finding F-use-stack-lifo-threads is reported on every run."},
+ "C16": {"level": "other", "technique": "determinism obligations on every set-iteration site (syntactic rule with discharge patterns + finite check of the lexer's literal table) + bounded digest across PYTHONHASHSEED values",
+         "text": "Every iteration over a set-typed expression in einx/_src must feed an order-insensitive consumer, be guarded to a singleton, only reach exception text, carry a proof, or be listed as an explicit assumption; a new unguarded site fails the rule. Behavioural equality is sampled over 8/32 hash seeds in separate processes.",
+         "note": "Assumed sites (cse numbering, solver equivalence-class constant) are listed in the evidence; sympy ordering trusted; known finding F-solver-order-hang reported on every run. " + B_NOTE},
+ "C17": {"level": "other", "technique": "template grammar of the code generator checked by syntactic rule over the emitter's string templates + relational postcondition (sizes only change integer literals) on a bounded corpus",
+         "text": "No emitter template of the real compile() contains a loop/branch/comprehension keyword (rule over all 60+ templates); every generated text of the corpus is parsed and must consist of straight-line statements only, and its skeleton must be identical across five size assignments that agree on the length-1 axes.",
+         "note": B_NOTE},
+})
 NOT_APPLICABLE = {}
